@@ -3,6 +3,7 @@ package main
 import (
 	"fmt"
 	"go/ast"
+	"go/constant"
 	"go/token"
 	"go/types"
 	"sort"
@@ -77,28 +78,27 @@ func ruleV18(c *Ctx) {
 	// (c) legacy guards of the method arshaler arms
 	n := 0
 	for _, f := range p.FuncsIn("json") {
-		if f.Lit == nil || f.Body() == nil || !strings.HasPrefix(f.Name, "json.makeMethodArshaler:marshal") {
+		if f.Body() == nil {
 			continue
 		}
 		info := f.Info()
+		k := 0
 		for _, ifs := range findAll[*ast.IfStmt](f.Body()) {
-			callsPrev := false
-			for _, r := range findAll[*ast.ReturnStmt](ifs.Body) {
-				for _, call := range CallsIn(r) {
-					if id, ok := ast.Unparen(call.Fun).(*ast.Ident); ok && strings.HasPrefix(id.Name, "prev") {
-						callsPrev = true
-					}
-				}
-			}
-			if !callsPrev || flagsRead(info, ifs.Cond) == 0 {
+			cs := exprString(ifs.Cond)
+			if !strings.Contains(p.Flags().Names(flagsRead(info, ifs.Cond)), "CallMethodsWithLegacySemantics") || !strings.Contains(cs, "forcedAddr") {
 				continue
 			}
 			n++
-			mentionsName := strings.Contains(exprString(ifs.Cond), "NeedObjectName")
+			k++
+			mentionsName := strings.Contains(cs, "NeedObjectName")
 			eval := func(needAddr, forced, name bool) tri {
 				return boolEval(ifs.Cond, func(e ast.Expr) (bool, bool) {
 					if _, ok := IsFlagGet(info, e); ok {
 						return true, true
+					}
+					switch e.(type) {
+					case *ast.BinaryExpr, *ast.UnaryExpr:
+						return false, false
 					}
 					s := exprString(e)
 					switch {
@@ -124,10 +124,10 @@ func ruleV18(c *Ctx) {
 					}
 				}
 			}
-			c.Oblige("legacy-method-guard:"+f.Name, ifs.Pos(), ok, detail)
+			c.Oblige(fmt.Sprintf("legacy-method-guard:%s#%d", f.Name, k), ifs.Pos(), ok, detail)
 		}
 	}
-	c.Floor("legacy guards in method arshaler marshal arms", n, 3)
+	c.Floor("legacy guards on forcedAddr in package json", n, 4)
 	// (d) int / uint legacy parse guards
 	guards := map[string]string{}
 	for _, nm := range []string{"json.makeIntArshaler:unmarshal", "json.makeUintArshaler:unmarshal"} {
@@ -172,7 +172,6 @@ func ruleFMTCOMP1(c *Ctx) {
 		}
 		info := f.Info()
 		// numeric locals and where they are read
-		type use struct{ ifs *ast.IfStmt }
 		reads := map[types.Object][]*ast.IfStmt{} // innermost enclosing if-body per read (nil = outside any if body)
 		InspectNoLit(f.Body(), func(nd ast.Node) bool {
 			id, ok := nd.(*ast.Ident)
@@ -206,7 +205,7 @@ func ruleFMTCOMP1(c *Ctx) {
 					break
 				}
 				if ifs, ok := par.(*ast.IfStmt); ok && ifs.Cond == cur {
-					break // a read in a condition is a read outside the body
+					return true // a read in a condition formats nothing
 				}
 				cur = par
 			}
@@ -248,7 +247,7 @@ func ruleFMTCOMP1(c *Ctx) {
 			c.Oblige("component-not-dropped:"+f.Name+":"+v.Name(), only.Pos(), mentions, "`"+v.Name()+"` is only formatted inside a block whose condition `"+exprString(only.Cond)+"` does not look at it: when the block is skipped a non-zero "+v.Name()+" silently disappears from the output (and the value no longer round-trips)")
 		}
 	}
-	c.Floor("conditionally formatted components in time formatters", n, 1)
+	c.Floor("conditionally formatted components in time formatters", n, 4)
 }
 
 func ruleNILFMT1(c *Ctx) {
@@ -260,11 +259,11 @@ func ruleNILFMT1(c *Ctx) {
 			c.Undecide(nm, "closure missing")
 			continue
 		}
-		info := f.Info()
 		for _, g := range p.CalleeClosure(f, 2) {
 			if g.Body() == nil {
 				continue
 			}
+			info := g.Info()
 			for _, cc := range findAll[*ast.CaseClause](g.Body()) {
 				for _, e := range cc.List {
 					s, ok := ConstStr(info, e)
@@ -277,6 +276,15 @@ func ruleNILFMT1(c *Ctx) {
 						want = "false"
 					}
 					okSet := false
+					for _, r := range findAll[*ast.ReturnStmt](&ast.BlockStmt{List: cc.Body}) {
+						// the helper form: `return true, nil` out of a function that resolves the flag
+						for _, res := range r.Results {
+							if tv, ok := info.Types[res]; ok && tv.Value != nil && tv.Value.Kind() == constant.Bool {
+								okSet = tv.Value.String() == want
+								break
+							}
+						}
+					}
 					for _, as := range findAll[*ast.AssignStmt](&ast.BlockStmt{List: cc.Body}) {
 						if len(as.Lhs) == 1 && len(as.Rhs) == 1 {
 							if tv, ok := info.Types[as.Rhs[0]]; ok && tv.Value != nil && tv.Value.String() == want {
@@ -303,9 +311,16 @@ func ruleESCFLAG1(c *Ctx) {
 		c.Undecide("json.consumeTagOption", "function missing")
 		return
 	}
-	info := f.Info()
 	n := 0
-	for _, cc := range findAll[*ast.CaseClause](f.Body()) {
+	var clauses []*ast.CaseClause
+	var info *types.Info
+	for _, g := range p.CalleeClosure(f, 2) {
+		if g.Body() != nil && g.File == f.File {
+			clauses = append(clauses, findAll[*ast.CaseClause](g.Body())...)
+			info = g.Info()
+		}
+	}
+	for _, cc := range clauses {
 		if len(cc.List) != 1 {
 			continue
 		}
@@ -330,4 +345,317 @@ func ruleESCFLAG1(c *Ctx) {
 	if n == 0 {
 		c.Undecide("json.consumeTagOption/escape", "no clause on a bool escape flag")
 	}
+}
+
+func init() {
+	register(&Rule{ID: "WS-3", Doc: "no ad-hoc whitespace set: outside the *Whitespace* scanners of jsonwire (WS-2), every boolean expression or case list in jsontext, jsonwire, json and v1 that tests a byte for equality with ' ' and with '\\n' or '\\r' (space and tab alone are the indentation alphabet) holds (or fails) for exactly {0x20, 0x09, 0x0a, 0x0d} — a hand-rolled skip loop that forgets one of the four makes a value with that leading byte an invalid kind", Run: ruleWS3})
+	register(&Rule{ID: "KINDDEF-1", Doc: "an unexpected kind is consumed as a value, not as a token: in package json the default clause of a switch over a jsontext.Kind never calls Decoder.ReadToken — for ']' or '}' ReadToken succeeds and closes the enclosing container, where ReadValue reports the syntax error", Run: ruleKINDDEF1})
+	register(&Rule{ID: "UNWRITE-4", Doc: "an escaped quote is never taken for an empty string: in encoderState.UnwriteEmptyObjectMember the `\"\"` case returns false whenever the byte before the two quotes is a backslash (in a valid buffer that backslash can only escape the first of the two quotes), whatever else the condition looks at", Run: ruleUNWRITE4})
+	register(&Rule{ID: "ERRCMP-1", Doc: "the tokenizer's internal end-of-input sentinels are compared by identity: in jsontext no errors.Is / errors.As has io.ErrUnexpectedEOF or io.EOF as its target (a reader's own error that merely wraps the sentinel would be taken for the tokenizer's `need more input` and swallowed)", Run: ruleERRCMP1})
+}
+
+func mentionsLit(info *types.Info, n ast.Node, vals ...int64) bool {
+	found := false
+	ast.Inspect(n, func(m ast.Node) bool {
+		if lit, ok := m.(*ast.BasicLit); ok && lit.Kind == token.CHAR {
+			if v, isC := ConstI64(info, lit); isC {
+				for _, w := range vals {
+					if v == w {
+						found = true
+					}
+				}
+			}
+		}
+		return true
+	})
+	return found
+}
+
+func ruleWS3(c *Ctx) {
+	p := c.P
+	want := map[int64]bool{' ': true, '\t': true, '\n': true, '\r': true}
+	nExpr := 0
+	for _, f := range p.FuncsIn("jsonwire", "jsontext", "json", "v1") {
+		if f.Body() == nil {
+			continue
+		}
+		if f.Obj != nil && strings.Contains(f.Obj.Name(), "Whitespace") {
+			continue // WS-2
+		}
+		info := f.Info()
+		k := 0
+		isBool := func(e ast.Expr) bool {
+			b, ok := ast.Unparen(e).(*ast.BinaryExpr)
+			return ok && (b.Op == token.LAND || b.Op == token.LOR)
+		}
+		InspectNoLit(f.Body(), func(nd ast.Node) bool {
+			switch x := nd.(type) {
+			case *ast.BinaryExpr:
+				if !isBool(x) {
+					return true
+				}
+				// the largest ||-group (or the whole expression) that mentions ' ' and one of the others
+				var groups []ast.Expr
+				for _, cj := range conjuncts(x) {
+					if mentionsLit(info, cj, ' ') && mentionsLit(info, cj, '\n', '\r') {
+						groups = append(groups, cj)
+					}
+				}
+				for _, g := range groups {
+					eqOnly := true
+					ast.Inspect(g, func(m ast.Node) bool {
+						if b, ok := m.(*ast.BinaryExpr); ok && mentionsLit(info, b, ' ') && !isBool(b) && b.Op != token.EQL && b.Op != token.NEQ {
+							eqOnly = false
+						}
+						return true
+					})
+					if !eqOnly {
+						continue
+					}
+					k++
+					nExpr++
+					key := fmt.Sprintf("adhoc-whitespace-set:%s#%d", f.Name, k)
+					var yes, no, unk int
+					var diff []string
+					for v := int64(0); v < 256; v++ {
+						subj := ""
+						switch evalBytePred(info, g, &subj, v) {
+						case triYes:
+							yes++
+							if !want[v] {
+								diff = append(diff, fmt.Sprintf("0x%02x", v))
+							}
+						case triNo:
+							no++
+							if want[v] {
+								diff = append(diff, fmt.Sprintf("0x%02x", v))
+							}
+						default:
+							unk++
+						}
+					}
+					if unk > 0 {
+						c.Undecide(key, "byte predicate `"+exprString(g)+"` not decidable")
+						continue
+					}
+					okSet := len(diff) == 0 || len(diff) == 256 // exactly the set, or exactly its complement
+					c.Oblige(key, g.Pos(), okSet, "`"+exprString(g)+"` treats byte(s) "+strings.Join(diff, ",")+" differently from RFC 8259 whitespace {0x20,0x09,0x0a,0x0d}")
+				}
+				return false
+			case *ast.BasicLit:
+				// a cut-set string such as " \t\n" handed to bytes.TrimLeft and friends
+				if x.Kind != token.STRING {
+					return true
+				}
+				sv, ok := ConstStr(info, x)
+				if !ok || len(sv) < 2 || len(sv) > 8 {
+					return true
+				}
+				set := map[int64]bool{}
+				only := true
+				for _, r := range sv {
+					set[int64(r)] = true
+					if r > ' ' {
+						only = false
+					}
+				}
+				if !only || !set[' '] || !(set['\n'] || set['\r']) { // " \t" alone is the indentation alphabet, not JSON whitespace
+					return true
+				}
+				k++
+				nExpr++
+				var diff []string
+				for v := int64(0); v <= ' '; v++ {
+					if set[v] != want[v] {
+						diff = append(diff, fmt.Sprintf("0x%02x", v))
+					}
+				}
+				c.Oblige(fmt.Sprintf("adhoc-whitespace-set:%s#%d", f.Name, k), x.Pos(), len(diff) == 0, "the cut-set "+x.Value+" differs from RFC 8259 whitespace in "+strings.Join(diff, ","))
+			case *ast.CaseClause:
+				sp, other := false, false
+				vals := map[int64]bool{}
+				for _, e := range x.List {
+					if v, isC := ConstI64(info, e); isC {
+						vals[v] = true
+						if v == ' ' {
+							sp = true
+						}
+						if v == '\n' || v == '\r' {
+							other = true
+						}
+					}
+				}
+				if sp && other {
+					k++
+					nExpr++
+					var diff []string
+					for v := range want {
+						if !vals[v] {
+							diff = append(diff, fmt.Sprintf("0x%02x", v))
+						}
+					}
+					for v := range vals {
+						if !want[v] {
+							diff = append(diff, fmt.Sprintf("0x%02x", v))
+						}
+					}
+					sort.Strings(diff)
+					c.Oblige(fmt.Sprintf("adhoc-whitespace-set:%s#%d", f.Name, k), x.Pos(), len(diff) == 0, "the case list differs from RFC 8259 whitespace in "+strings.Join(diff, ","))
+				}
+			}
+			return true
+		})
+	}
+	c.OK("adhoc-whitespace-set:count", token.NoPos, fmt.Sprintf("ad-hoc whitespace tests outside the scanners: %d (0 on the reviewed tree; the selftest mutant ws3 keeps the rule armed)", nExpr))
+}
+
+func ruleKINDDEF1(c *Ctx) {
+	p := c.P
+	n := 0
+	for _, f := range p.FuncsIn("json") {
+		if f.Body() == nil {
+			continue
+		}
+		info := f.Info()
+		InspectNoLit(f.Body(), func(nd ast.Node) bool {
+			sw, ok := nd.(*ast.SwitchStmt)
+			if !ok {
+				return true
+			}
+			kindSwitch := sw.Tag != nil && isNamed(info.TypeOf(sw.Tag), pkgAlias["jsontext"], "Kind")
+			if !kindSwitch {
+				return true
+			}
+			for _, st := range sw.Body.List {
+				cc := st.(*ast.CaseClause)
+				if cc.List != nil {
+					continue
+				}
+				n++
+				bad := token.NoPos
+				for _, s := range cc.Body {
+					for _, call := range CallsIn(s) {
+						if _, ok := MethodCall(info, call, "jsontext", "Decoder", "ReadToken"); ok {
+							bad = call.Pos()
+						}
+					}
+				}
+				pos := cc.Pos()
+				if bad != token.NoPos {
+					pos = bad
+				}
+				c.Oblige(fmt.Sprintf("kind-default-reads-value:%s@%s", f.Name, exprString(sw.Tag)), pos, bad == token.NoPos, "the default arm of a switch over the next kind advances the decoder with ReadToken: for ']' or '}' that closes the enclosing array or object without an error, so malformed input such as `[]]`-shaped sequences inside an `any` target is accepted and the decoder state no longer matches the caller's")
+			}
+			return true
+		})
+	}
+	c.Floor("default arms of kind switches in package json", n, 4)
+}
+
+func ruleUNWRITE4(c *Ctx) {
+	p := c.P
+	f := p.Func("jsontext.(*encoderState).UnwriteEmptyObjectMember")
+	if f == nil || f.Body() == nil {
+		c.Undecide("jsontext.encoderState.UnwriteEmptyObjectMember", "function missing")
+		return
+	}
+	info := f.Info()
+	n := 0
+	var clauses []*ast.CaseClause
+	for _, g := range p.CalleeClosure(f, 2) {
+		if g.Body() != nil && g.File == f.File {
+			clauses = append(clauses, findAll[*ast.CaseClause](g.Body())...)
+		}
+	}
+	for _, cc := range clauses {
+		isEmptyStr := false
+		for _, e := range cc.List {
+			if s, ok := ConstStr(info, e); ok && s == `""` {
+				isEmptyStr = true
+			}
+		}
+		if !isEmptyStr {
+			continue
+		}
+		for _, st := range cc.Body {
+			ifs, ok := st.(*ast.IfStmt)
+			if !ok {
+				continue
+			}
+			retFalse := false
+			for _, r := range findAll[*ast.ReturnStmt](ifs.Body) {
+				if len(r.Results) == 1 {
+					if tv, ok := info.Types[r.Results[0]]; ok && tv.Value != nil && (tv.Value.String() == "false" || tv.Value.String() == "0") {
+						retFalse = true // `return 0` in the helper form that answers with the length of the empty value
+					}
+				}
+			}
+			if !retFalse {
+				continue
+			}
+			n++
+			r := boolEval(ifs.Cond, func(e ast.Expr) (bool, bool) {
+				b, ok := ast.Unparen(e).(*ast.BinaryExpr)
+				if !ok || b.Op != token.EQL {
+					return false, false
+				}
+				x, y := b.X, b.Y
+				if _, isC := ConstI64(info, x); isC {
+					x, y = y, x
+				}
+				if v, isC := ConstI64(info, y); !isC || v != '\\' {
+					return false, false
+				}
+				ix, ok := ast.Unparen(x).(*ast.IndexExpr)
+				if !ok {
+					return false, false
+				}
+				s := strings.ReplaceAll(exprString(ix.Index), " ", "")
+				if strings.HasPrefix(s, "len(") && strings.HasSuffix(s, ")-3") {
+					return true, true
+				}
+				return false, false
+			})
+			c.Oblige("escaped-quote-is-not-empty", ifs.Pos(), r == triYes, "the `\"\"` case does not return false for every buffer whose third byte from the end is a backslash (condition `"+exprString(ifs.Cond)+"`): a string ending in an escaped quote (e.g. `\"\\\\\\\"\"`) is taken for the empty string and the member is dropped by omitempty")
+		}
+	}
+	if n == 0 {
+		c.Undecide("UnwriteEmptyObjectMember/empty-string-case", "no `return false` test in the `\"\"` case")
+	}
+}
+
+func ruleERRCMP1(c *Ctx) {
+	p := c.P
+	nId := 0
+	for _, f := range p.FuncsIn("jsontext") {
+		if f.Body() == nil {
+			continue
+		}
+		info := f.Info()
+		isSentinel := func(e ast.Expr) bool {
+			o := IdentOrSelObj(info, e)
+			return o != nil && o.Pkg() != nil && o.Pkg().Path() == "io" && (o.Name() == "ErrUnexpectedEOF" || o.Name() == "EOF")
+		}
+		InspectNoLit(f.Body(), func(nd ast.Node) bool {
+			switch x := nd.(type) {
+			case *ast.CallExpr:
+				if (FuncCall(info, x, "errors", "Is") || FuncCall(info, x, "errors", "As")) && len(x.Args) == 2 && isSentinel(x.Args[1]) {
+					c.Oblige("sentinel-by-identity:"+f.Name, x.Pos(), false, "`"+exprString(x)+"`: the tokenizer uses io.ErrUnexpectedEOF / io.EOF as its own `need more input` / `clean end` signals; matching them with errors.Is also matches an error of the caller's io.Reader that wraps one of them, which is then swallowed (truncated input reported as a clean end) instead of being returned")
+				}
+			case *ast.BinaryExpr:
+				if (x.Op == token.EQL || x.Op == token.NEQ) && (isSentinel(x.X) || isSentinel(x.Y)) {
+					nId++
+				}
+			case *ast.CaseClause:
+				for _, e := range x.List {
+					if isSentinel(e) {
+						nId++
+					}
+				}
+			}
+			return true
+		})
+	}
+	c.Oblige("sentinel-by-identity:count", token.NoPos, true, "")
+	c.Floor("identity comparisons with io.EOF / io.ErrUnexpectedEOF in jsontext", nId, 8)
 }
